@@ -1,10 +1,10 @@
 package main
 
 import (
-	"github.com/biogo/biogo/io/seqio"
-	"errors"
 	"bytes"
+	"errors"
 	"fmt"
+	"github.com/biogo/biogo/io/seqio"
 	"io"
 	"math/rand"
 	"strings"
@@ -295,9 +295,9 @@ func (w *limitWriter) Write(p []byte) (int, error) {
 
 // chunkReader delivers data in irregular small chunks and records whether EOF was delivered.
 type chunkReader struct {
-	data   []byte
-	pos    int
-	rng    *rand.Rand
+	data    []byte
+	pos     int
+	rng     *rand.Rand
 	eof     bool
 	eofFlag int32
 	maxLen  int
@@ -345,12 +345,35 @@ func newSrc(rng *rand.Rand, data []byte) *chunkReader {
 	return c
 }
 
+// ioTemplate returns the empty sequence a reader clones for every record; a third of them are empty with room to
+// spare (a buffer the caller pre-sized), which must not end up shared between the records.
+func ioTemplate(rng *rand.Rand, al alphabet.Alphabet, quality bool, enc alphabet.Encoding) seqio.SequenceAppender {
+	room := 0
+	if rng.Intn(3) == 0 {
+		room = []int{16, 1024, 70000}[rng.Intn(3)]
+		atomic.AddInt64(&ioRoomyTemplates, 1)
+	}
+	if quality {
+		t := linear.NewQSeq("", nil, al, enc)
+		if room > 0 {
+			t.Seq = make(alphabet.QLetters, 0, room)
+		}
+		return t
+	}
+	t := linear.NewSeq("", nil, al)
+	if room > 0 {
+		t.Seq = make(alphabet.Letters, 0, room)
+	}
+	return t
+}
+
+// ioRoomyTemplates counts the templates made with spare capacity (read by the monitors for their evidence).
+var ioRoomyTemplates int64
+
 // readAllFasta reads every record from data.
 func readAllFasta(rng *rand.Rand, data []byte, al alphabet.Alphabet, maxCalls int) ([]seq.Sequence, error, int) {
-	var tmpl seqio.SequenceAppender = linear.NewSeq("", nil, al)
-	if rng.Intn(2) == 0 { // the quality-carrying type as the template: letters arrive through its own AppendLetters
-		tmpl = linear.NewQSeq("", nil, al, alphabet.Sanger)
-	}
+	// half of the time the quality-carrying type is the template: letters arrive through its own AppendLetters
+	tmpl := ioTemplate(rng, al, rng.Intn(2) == 0, alphabet.Sanger)
 	rd := fasta.NewReader(newSrc(rng, data), tmpl)
 	var out []seq.Sequence
 	for calls := 1; ; calls++ {
@@ -370,11 +393,7 @@ func readAllFasta(rng *rand.Rand, data []byte, al alphabet.Alphabet, maxCalls in
 
 func readAllFastq(rng *rand.Rand, data []byte, al alphabet.Alphabet, enc alphabet.Encoding, plainTemplate bool, maxCalls int) ([]seq.Sequence, error, int) {
 	var rd *fastq.Reader
-	if plainTemplate {
-		rd = fastq.NewReader(newSrc(rng, data), linear.NewSeq("", nil, al))
-	} else {
-		rd = fastq.NewReader(newSrc(rng, data), linear.NewQSeq("", nil, al, enc))
-	}
+	rd = fastq.NewReader(newSrc(rng, data), ioTemplate(rng, al, !plainTemplate, enc))
 	var out []seq.Sequence
 	for calls := 1; ; calls++ {
 		s, err := rd.Read()
@@ -459,4 +478,19 @@ func refParseFastq(data []byte, offset int) ([]ioRec, error) {
 		out = append(out, rec)
 	}
 	return out, nil
+}
+
+// gateWriter accepts everything while open and refuses every call (0 bytes, an error) while closed.
+type gateWriter struct {
+	buf    bytes.Buffer
+	closed bool
+}
+
+var errGateClosed = errors.New("harness: the underlying writer refuses this call")
+
+func (g *gateWriter) Write(p []byte) (int, error) {
+	if g.closed {
+		return 0, errGateClosed
+	}
+	return g.buf.Write(p)
 }
